@@ -18,7 +18,10 @@ databases (acyclic graphs of up to 60 units with forward, prefixed and plural re
 and ratio properties, docs, categories) under 4 permutations each. Oracle: the canonical exact registry dump and the set of reported \
 problems are identical to those of the original order. Entries sharing (namespace, name) are reduced to the one that wins in the \
 shipped order first (the statement's premise is uniquely named definitions). Non-trivial = distinct (database, permutation) that \
-places at least one definition before something it depends on.";
+places at least one definition before something it depends on. Phase cli-split: 2..10 generated user units that refer to bundled units \
+and to each other (bare, prefixed, plural), split over ./definitions.units and <config>/rink/definitions.units in a generated order, \
+queried through the real rink binary and compared with the same units in one file in dependency order; non-trivial there = a reference \
+that crosses the two files.";
 
 fn clone_entry(e: &DefEntry) -> DefEntry {
     DefEntry {
@@ -384,6 +387,172 @@ pub fn check_expected(db: &SynDb, defs: &[DefEntry]) -> Result<(), String> {
     Ok(())
 }
 
+// ---------------------------------------------------------------------------
+// splitting across the files the CLI finds (./, the config directory, the bundled file)
+// ---------------------------------------------------------------------------
+
+/// user definitions extending the bundled database, split over the two user files of the
+/// CLI's search path; `tape` drives names, references, placement and order
+#[derive(Clone, Debug, Serialize, Deserialize)]
+pub struct SplitCase {
+    pub tape: Vec<u32>,
+}
+
+pub struct SplitPlan {
+    /// (name, definition line, indices of the user units it refers to)
+    pub units: Vec<(String, String, Vec<usize>)>,
+    /// file per unit: 0 = ./definitions.units, 1 = <config>/rink/definitions.units
+    pub place: Vec<u8>,
+    /// order of the lines within the files (a permutation of 0..n)
+    pub order: Vec<usize>,
+}
+
+pub fn split_plan(tape: &[u32]) -> SplitPlan {
+    let mut t = crate::gen::query::Tape::new(tape);
+    let n = 2 + t.pick(9);
+    const BUNDLED: [&str; 8] = ["meter", "foot", "kg", "hour", "inch", "liter", "newton", "second"];
+    let mut units: Vec<(String, String, Vec<usize>)> = vec![];
+    for i in 0..n {
+        let name = format!("zqv{}x", i);
+        let mut text = format!("{}", 1 + t.pick(12));
+        if t.chance(30) {
+            text = format!("{}|{}", text, 1 + t.pick(7));
+        }
+        let mut refs = vec![];
+        let nf = 1 + t.pick(3);
+        for _ in 0..nf {
+            // refer to an earlier user unit as often as possible: those references are the point
+            let factor = if i > 0 && t.chance(65) {
+                let j = t.pick(i);
+                refs.push(j);
+                let base = format!("zqv{}x", j);
+                match t.pick(4) {
+                    0 => format!("kilo{}", base),
+                    1 => format!("{}s", base),
+                    2 => format!("milli{}s", base),
+                    _ => base,
+                }
+            } else {
+                BUNDLED[t.pick(BUNDLED.len())].to_string()
+            };
+            let pw = [1i32, 1, 1, 2, -1, -2][t.pick(6)];
+            if pw == 1 {
+                text.push_str(&format!(" {}", factor));
+            } else {
+                text.push_str(&format!(" {}^{}", factor, pw));
+            }
+        }
+        units.push((name.clone(), format!("{} {}\n", name, text), refs));
+    }
+    let place: Vec<u8> = (0..n).map(|_| t.pick(2) as u8).collect();
+    let keys: Vec<u32> = (0..n).map(|_| t.pick(64) as u32).collect();
+    let order = order_from_keys(n, &keys);
+    SplitPlan { units, place, order }
+}
+
+fn run_rink_with_files(cwd_file: &str, cfg_file: &str, queries: &[String]) -> Result<(bool, String, String), String> {
+    let rink = verif_root().join("harness").join("target-rink").join("debug").join("rink");
+    if !rink.exists() {
+        return Err("[infrastructure] the rink binary is not built (./check --build)".into());
+    }
+    static SEQ: std::sync::atomic::AtomicU32 = std::sync::atomic::AtomicU32::new(0);
+    let dir = std::env::temp_dir().join(format!("rv-c12-cli-{}-{}", std::process::id(), SEQ.fetch_add(1, std::sync::atomic::Ordering::Relaxed)));
+    let cfg = dir.join("config").join("rink");
+    let cwd = dir.join("cwd");
+    let io = |e: std::io::Error| format!("[infrastructure] {}", e);
+    std::fs::create_dir_all(&cfg).map_err(io)?;
+    std::fs::create_dir_all(&cwd).map_err(io)?;
+    std::fs::write(cfg.join("config.toml"), "[currency]\nenabled = false\n[colors]\nenabled = false\n").map_err(io)?;
+    if !cwd_file.is_empty() {
+        std::fs::write(cwd.join("definitions.units"), cwd_file).map_err(io)?;
+    }
+    if !cfg_file.is_empty() {
+        std::fs::write(cfg.join("definitions.units"), cfg_file).map_err(io)?;
+    }
+    let input = dir.join("input.txt");
+    std::fs::write(&input, queries.join("\n") + "\n").map_err(io)?;
+    let out = std::process::Command::new("timeout")
+        .arg("120")
+        .arg(&rink)
+        .arg("-f")
+        .arg(&input)
+        .current_dir(&cwd)
+        .env("HOME", &dir)
+        .env("XDG_CONFIG_HOME", dir.join("config"))
+        .env("XDG_CACHE_HOME", dir.join("cache"))
+        .env("NO_COLOR", "1")
+        .output();
+    let _ = std::fs::remove_dir_all(&dir);
+    match out {
+        Ok(o) => Ok((o.status.success(), String::from_utf8_lossy(&o.stdout).to_string(), String::from_utf8_lossy(&o.stderr).to_string())),
+        Err(e) => Err(format!("[infrastructure] cannot run rink: {}", e)),
+    }
+}
+
+/// the same user definitions, (a) all in the config-directory file in dependency order and
+/// (b) split over ./definitions.units and the config-directory file in a generated order,
+/// must give the real `rink` binary the same answers
+pub fn check_split(c: &SplitCase, st: &mut Stats, known: &BTreeSet<String>) -> CaseResult {
+    let plan = split_plan(&c.tape);
+    let n = plan.units.len();
+    let queries: Vec<String> = plan.units.iter().flat_map(|(name, _, _)| vec![name.clone(), format!("7 {}", name)]).collect();
+    let reference: String = plan.units.iter().map(|u| u.1.clone()).collect();
+    let mut files = [String::new(), String::new()];
+    for i in &plan.order {
+        files[plan.place[*i] as usize].push_str(&plan.units[*i].1);
+    }
+    let crossing = (0..n).filter(|i| plan.units[*i].2.iter().any(|j| plan.place[*j] != plan.place[*i])).count();
+    // references from the config-directory file into ./definitions.units and the other way round
+    let cfg_to_cwd = (0..n).filter(|i| plan.place[*i] == 1 && plan.units[*i].2.iter().any(|j| plan.place[*j] == 0)).count();
+    let cwd_to_cfg = (0..n).filter(|i| plan.place[*i] == 0 && plan.units[*i].2.iter().any(|j| plan.place[*j] == 1)).count();
+    st.evals(2);
+    st.class("cli_split");
+    if cfg_to_cwd > 0 {
+        st.class("cli_split_config_file_refers_to_cwd_file");
+    }
+    if cwd_to_cfg > 0 {
+        st.class("cli_split_cwd_file_refers_to_config_file");
+    }
+    let (ok_a, out_a, err_a) = run_rink_with_files("", &reference, &queries)?;
+    if !ok_a || out_a.contains("No such unit") || out_a.lines().count() != queries.len() {
+        return known_or(
+            known,
+            st,
+            format!(
+                "[cli-user-definitions-rejected] user definitions in one file, in dependency order, were not all answered: status ok = {}, stdout `{}`, stderr `{}`\nfile:\n{}",
+                ok_a,
+                out_a.chars().take(300).collect::<String>(),
+                err_a.chars().take(300).collect::<String>(),
+                reference
+            ),
+            "cli-split",
+        );
+    }
+    let (ok_b, out_b, err_b) = run_rink_with_files(&files[0], &files[1], &queries)?;
+    if crossing > 0 {
+        st.nontrivial(&(crate::engine::hash_of(&files[0]), crate::engine::hash_of(&files[1])));
+        st.nt_sample(|| json!({"./definitions.units": files[0], "<config>/rink/definitions.units": files[1], "references_crossing_files": crossing}));
+    }
+    if !ok_b || out_b != out_a {
+        return known_or(
+            known,
+            st,
+            format!(
+                "[split-across-files-differs] the same {} definitions answer differently when split over the CLI's two user files: status ok = {}; one file: `{}`; split: `{}` stderr `{}`\n./definitions.units:\n{}<config>/rink/definitions.units:\n{}",
+                n,
+                ok_b,
+                out_a.chars().take(240).collect::<String>(),
+                out_b.chars().take(240).collect::<String>(),
+                err_b.chars().take(300).collect::<String>(),
+                files[0],
+                files[1]
+            ),
+            "cli-split",
+        );
+    }
+    Ok(())
+}
+
 pub fn syn_strategy(max_units: usize) -> impl Strategy<Value = SynCase> {
     (db_strategy(max_units), proptest::collection::vec(proptest::collection::vec(0u32..64, 0..120), 3)).prop_map(|(db, perms)| SynCase { db, perms })
 }
@@ -392,7 +561,7 @@ pub fn run(cx: &Cx) -> Report {
     let mut rep = Report::new(RULE);
     rep.assumptions = vec![
         "entries sharing (namespace, name) are reduced to the one that wins in the shipped order before permuting (the bundled file declares category `japanese` twice)".into(),
-        "splitting across files equals concatenation, which is what the CLI does with the files it finds (cli/src/config.rs)".into(),
+        "in the library phases splitting across files equals concatenation, which is what the CLI does with the files it finds (cli/src/config.rs); the cli-split phase checks that with the real binary and user files on its search path".into(),
         "the registry's public fields are the database; prefix order in the registry is part of the dump".into(),
     ];
     let known = cx.known.clone();
@@ -440,6 +609,21 @@ pub fn run(cx: &Cx) -> Report {
         |c| json!({"syn": c}),
     ));
     rep.mark(cx, "synthetic");
+    // the CLI's own way of splitting: user files on the search path next to the bundled file
+    let k = known.clone();
+    // every shrink step runs the binary twice
+    let shrink_iters = MAX_SHRINK_ITERS.swap(80, std::sync::atomic::Ordering::Relaxed);
+    rep.absorb(par_proptest(
+        cx,
+        "cli-split",
+        cx.tier.pick(160, 4000),
+        || proptest::collection::vec(any::<u32>(), 20..90).prop_map(|tape| SplitCase { tape }),
+        || (),
+        move |_, c, st| check_split(c, st, &k),
+        |c| json!({"split": c}),
+    ));
+    MAX_SHRINK_ITERS.store(shrink_iters, std::sync::atomic::Ordering::Relaxed);
+    rep.mark(cx, "cli-split");
     rep
 }
 
@@ -449,6 +633,10 @@ pub fn replay(cx: &Cx, _phase: &str, case: &J, st: &mut Stats) -> CaseResult {
         let b = bundled(with_currency)?;
         let p: Perm = serde_json::from_value(case["perm"].clone()).map_err(|e| format!("bad case: {}", e))?;
         return check_bundled(&b, &p, if with_currency { "core+currency" } else { "core" }, st, &cx.known);
+    }
+    if case.get("split").is_some() {
+        let c: SplitCase = serde_json::from_value(case["split"].clone()).map_err(|e| format!("bad case: {}", e))?;
+        return check_split(&c, st, &cx.known);
     }
     let c: SynCase = serde_json::from_value(case["syn"].clone()).map_err(|e| format!("bad case: {}", e))?;
     check_syn(&c, st, &cx.known)
